@@ -226,8 +226,13 @@ def _one2(job, rng, var):
         return dict(machinery=traceback.format_exc()[-1500:])
     pk = []
     for i, fr in enumerate(frames):
-        how = rng.choice([None, None, None, "field", "payload", "swapwords", "zero"])
-        pk.append(corrupt(fr, how, rng) if how else fr)
+        how = rng.choice([None, None, None, "field", "payload", "swapwords", "zero", "damaged_then_retransmitted", "retransmitted_damaged"])
+        if how == "damaged_then_retransmitted":         # a copy damaged in transit (checksum field as sent) is followed by the intact retransmission
+            pk += [corrupt(fr, "payload", rng), fr]
+        elif how == "retransmitted_damaged":            # ... or the intact segment by a damaged retransmission
+            pk += [fr, corrupt(fr, "payload", rng)]
+        else:
+            pk.append(corrupt(fr, how, rng) if how else fr)
     verdict = [verify(fr) for fr in pk]
     ts0 = 1_700_000_000_000_000
     kl = "\n".join(keylog) + "\n"
